@@ -178,6 +178,18 @@ pub fn run_prop(ctx: &Ctx, sink: &mut Sink) {
             let imp = if o.code == Some(0) { bits(&selected(&o.out, n_files)) } else { format!("status-{}", o.status()) };
             sink.push(Case { req: format!("newer-e2e {sp} {x} {y} {ra}:{rc}:{rm} {}", es.join(",")), imp, tags: vec!["newer", "nt"] });
         }
+        // the reference file is itself one of the entries the walk visits, under the very spelling given to the
+        // test: for X != Y it is selected iff its own X timestamp is later than its own Y timestamp
+        for idx in [0usize, n_files / 2, n_files - 1] {
+            let refq = dir.join(format!("f{idx:03}"));
+            let (qa, qc, qm) = times_of(&refq);
+            for (sp, x, y) in [("-neweram", "a", "m"), ("-newerma", "m", "a"), ("-anewer", "a", "m"), ("-newercm", "c", "m"), ("-cnewer", "c", "m"), ("-newermc", "m", "c"), ("-newer", "m", "m")] {
+                let args: Vec<String> = vec![dir.to_str().unwrap().into(), "-name".into(), "f*".into(), sp.into(), refq.to_str().unwrap().into(), "-print0".into()];
+                let o = find_inproc(&errf, &args, SystemTime::now(), None);
+                let imp = if o.code == Some(0) { bits(&selected(&o.out, n_files)) } else { format!("status-{}", o.status()) };
+                sink.push(Case { req: format!("newer-e2e {sp} {x} {y} {qa}:{qc}:{qm} {}", es.join(",")), imp, tags: vec!["newer", "reference-is-visited", "nt"] });
+            }
+        }
         let _ = std::fs::remove_dir_all(&top);
     }
 }
